@@ -616,20 +616,11 @@ theorem highlighter_creation_inventory :
     directFieldUses = [("src/handlers/merge_conflict.rs", "paint_buffered_merge_conflict_lines", "highlighter", 1)] := by
   decide
 
-/-- The functions that flush or paint a zero line (each is a `flush` / line event of the model). -/
-theorem flush_sites_inventory :
-    flushSites.map (fun x => (x.1, x.2.1)) =
-      [("src/delta.rs", "consume"), ("src/delta.rs", "emit_line_unchanged"),
-       ("src/handlers/commit_meta.rs", "handle_commit_meta_header_line"),
-       ("src/handlers/diff_header.rs", "handle_diff_header_minus_line"),
-       ("src/handlers/diff_header.rs", "handle_diff_header_plus_line"),
-       ("src/handlers/diff_header.rs", "should_write_generic_diff_header_header_line"),
-       ("src/handlers/diff_header_diff.rs", "handle_diff_header_diff_line"),
-       ("src/handlers/hunk.rs", "handle_hunk_line"), ("src/handlers/hunk.rs", "handle_hunk_line"),
-       ("src/handlers/hunk_header.rs", "emit_hunk_header_line"),
-       ("src/handlers/merge_conflict.rs", "enter_merge_conflict"),
-       ("src/handlers/mod.rs", "handle_additional_cases"),
-       ("src/handlers/submodule.rs", "handle_submodule_short_line")] := by
+/-- A zero line is painted by `handle_hunk_line` only (the `zeroLine` event of the model). The callers of the flush
+(`flushSites`, generated) are not pinned: a flush is an event the theorems allow anywhere. -/
+theorem zero_line_sites_inventory :
+    (flushSites.filter fun x => x.2.2.1 == "paint_zero_line").map (fun x => (x.1, x.2.1, x.2.2.2)) =
+      [("src/handlers/hunk.rs", "handle_hunk_line", 1)] := by
   decide
 
 /-- The machine that interprets the source (`runF`: painter methods, `handle_hunk_line`, the three header
